@@ -13,20 +13,22 @@ impl Prop for P {
         let geoms = crate::c01::GEOMETRIES;
         for ks in sets {
             let g = if rng.chance(2, 3) { geoms[0] } else { *rng.pick(&geoms) };
-            cases.push(format!("fmt 0 {} {} {}", g.0, g.1, fmt_ops(&set_ops(&ks))));
+            let cap = *rng.pick(&[0usize, 0, 1, 3, 7, 100]);
+            cases.push(format!("fmt 0 {} {} {} {}", g.0, g.1, cap, fmt_ops(&set_ops(&ks))));
             let p = 1 + rng.below(NPATTERNS as u64 - 1) as usize;
             let vals = value_pattern(p, ks.len(), rng);
             let ty = if rng.chance(1, 4) { rng.next() } else { 0 };
-            cases.push(format!("fmt {} {} {} {}", ty, g.0, g.1, fmt_ops(&map_ops(&with_values(&ks, &vals)))));
+            let cap = *rng.pick(&[0usize, 0, 1, 3, 7, 100]);
+            cases.push(format!("fmt {} {} {} {} {}", ty, g.0, g.1, cap, fmt_ops(&map_ops(&with_values(&ks, &vals)))));
         }
         // address deltas of 2 bytes (files > 256 bytes between a node and its target) and 3 bytes (thorough)
         let sizes: &[usize] = if tier == Tier::Thorough { &[40, 400, 9000] } else { &[40, 400] };
         for &n in sizes {
             // many distinct long tails so that early nodes are far away from the root
             let ks: Vec<Vec<u8>> = sort_dedup((0..n).map(|i| format!("{:05}{}", i, "x".repeat(8 + i % 5)).into_bytes()).collect());
-            cases.push(format!("fmt 0 10000 2 {}", fmt_ops(&set_ops(&ks))));
+            cases.push(format!("fmt 0 10000 2 0 {}", fmt_ops(&set_ops(&ks))));
             let vals: Vec<u64> = (0..ks.len() as u64).map(|i| i * 7919 % 65_000).collect();
-            cases.push(format!("fmt 0 10000 2 {}", fmt_ops(&map_ops(&with_values(&ks, &vals)))));
+            cases.push(format!("fmt 0 10000 2 5 {}", fmt_ops(&map_ops(&with_values(&ks, &vals)))));
             stats.bump(&format!("wide_delta_family_{}_keys", n));
         }
         cases
@@ -39,9 +41,32 @@ impl Prop for P {
         let ty: u64 = p[1].parse().unwrap();
         let rows: usize = p[2].parse().unwrap();
         let cols: usize = p[3].parse().unwrap();
-        let ops = parse_ops(p[4]);
-        let out = exec_build("extend", "raw_loop", ty, rows, cols, &ops);
-        let bytes = out.bytes.unwrap();
+        let cap: usize = p[4].parse().unwrap();
+        let ops = parse_ops(p[5]);
+        // the builder writes to memory (cap 0) or to a sink that accepts at most `cap` bytes per write call
+        let bytes = if cap == 0 {
+            exec_build("extend", "raw_loop", ty, rows, cols, &ops).bytes.unwrap()
+        } else {
+            struct Chunky(Vec<u8>, usize);
+            impl std::io::Write for Chunky {
+                fn write(&mut self, buf: &[u8]) -> std::io::Result<usize> {
+                    let n = buf.len().min(self.1);
+                    self.0.extend_from_slice(&buf[..n]);
+                    Ok(n)
+                }
+                fn flush(&mut self) -> std::io::Result<()> {
+                    Ok(())
+                }
+            }
+            let mut b = fst::raw::Builder::verif_new_type_with_cache(Chunky(vec![], cap), ty, rows, cols).unwrap();
+            for o in &ops {
+                match o {
+                    Op::Insert(k, v) => b.insert(k, *v).unwrap(),
+                    Op::Add(k) => b.add(k).unwrap(),
+                }
+            }
+            b.into_inner().unwrap().0
+        };
         // what was inserted (a repeated add is one key)
         let mut kvs: Vec<(Vec<u8>, u64)> = vec![];
         for o in &ops {
@@ -51,6 +76,6 @@ impl Prop for P {
             kvs.push((o.key().to_vec(), o.val()));
         }
         let info = crate::c12::node_info(&fst::raw::Fst::new(bytes.clone()).unwrap());
-        format!("S:v=3;ty={};c={};len={};nodes={}\tM:bytes={}\tX:ok", ty, fmt_kvs(&kvs), kvs.len(), info.emitted, hex(&bytes))
+        format!("S:v=3;ty={};c={};len={};nodes={};ck=ok\tM:bytes={}\tX:ok", ty, fmt_kvs(&kvs), kvs.len(), info.emitted, hex(&bytes))
     }
 }
